@@ -12,11 +12,15 @@ c) CompactionWorker::run: schedule_reclaim only after the batch loop, which is l
 d) compactor and worker take the output id from batch.uid_plans[0].output_segment_id; compact_uid writes into the output dir passed down from run (shard_dir.join(dir_name(output id)));
    nothing reachable from ZoneCursorLoader::load_all mutates the file system.
 e) who-may-delete: only move_to_reclaim removes segment directories (remove_dir_all); its only caller chain is schedule_reclaim <- CompactionWorker::run.
+b3) the labels removed from the live segment list are exactly the labels reported as drained (returned to the caller for reclaim and used for cache invalidation): an input that still holds other
+   event types stays live.
+g) MultiUidCompactor::run: every uid plan of the batch either yields a result or fails the whole run (no iteration is skipped), because process_batch registers and retires every uid of the batch.
+h) ZoneMerger::{next_row,next_zone}: a cursor that still has rows after being popped (peek_context_id is Some) is always pushed back onto the heap before the next pop or return.
 f) the read path's decision "does segment s hold uid u" must consult the segment index's uid list rather than probe for leftover files.
 Not decided: content equality, behaviour after a crash inside a run.
 """
-FLOOR = 7
-REQUIRED = ["C05.a", "C05.b1", "C05.b2", "C05.c", "C05.d", "C05.e", "C05.f"]
+FLOOR = 10
+REQUIRED = ["C05.a", "C05.b1", "C05.b2", "C05.b3", "C05.c", "C05.d", "C05.e", "C05.f", "C05.g", "C05.h"]
 
 
 def run(ctx):
@@ -95,6 +99,86 @@ def run(ctx):
                 bad.append(("ok-after-failed-save", "add_segment_entry returns Ok although saving the index failed", None))
         return bad
     ctx.run("C05.b2", "K5 HELD", "SegmentIndexBuilder::add_segment_entry", "flush-side index update holds the same lock across load..save", b2)
+
+    def b3(inst):
+        b = F.fn("CompactionHandover::commit_batch")
+        ret = one(b, r"Vec::retain$")
+        inv = one(b, r"CompactionHandover::invalidate_caches$")
+        oks = [(bb, v) for (bb, j, v, dst) in b.aggregates("result::Result", "Ok") if dst == [0]]
+        if not oks:
+            raise AnchorMissing("Ok(drained) return")
+        bad = []
+        # locals the returned value / invalidation argument derive from
+        ret_locals = set()
+        for bb, v in oks:
+            ret_locals |= deep_locals(b, v["o"][0])
+        inv_locals = deep_locals(b, inv.args[1])
+        # the retain closure captures the set of retired labels: origin locals of the closure's captured operands
+        cl = None
+        for l in b.origins(ret.args[1]):
+            if l[0] == "agg" and l[1].startswith("closure:"):
+                for (bb, j, v, dst) in [(bb_, j_, v_, d_) for bb_ in b.live_blocks() for j_, s_ in enumerate(b.blocks[bb_]["s"]) if "v" in s_ for v_, d_ in [(s_["v"], s_["a"])] if v_["r"] == "agg" and v_.get("ak") == "closure" and ("closure:" + v_["def"]) == l[1]]:
+                    cl = v
+        if cl is None:
+            raise AnchorMissing("retain closure")
+        srcs = set()
+        for o in cl["o"]:
+            srcs |= deep_locals(b, o)
+        names = {b.local_name(x) for x in srcs} - {None}
+        inst.sites = [sp(b, ret.bb), "retained-out set derives from locals %s" % sorted(names)]
+        common = (srcs & ret_locals)
+        if not common:
+            bad.append(("live-list-vs-drained", "the labels removed from the live segment list (%s) are not the drained labels returned for reclaim (%s): a partially drained input disappears for the event types it still holds"
+                        % (sorted(names), sorted({b.local_name(x) for x in ret_locals} - {None})), None))
+        if not (ret_locals & inv_locals):
+            bad.append(("invalidate-vs-drained", "cache invalidation is applied to other labels than the drained ones", None))
+        return bad
+    ctx.run("C05.b3", "K7 PROV", "CompactionHandover::commit_batch", "only fully drained inputs leave the live list", b3)
+
+    def g(inst):
+        b = F.fn("MultiUidCompactor::run")
+        cu = one(b, r"MultiUidCompactor::compact_uid$")
+        ins = one(b, r"HashMap::insert$")
+        nxs = [c for c in b.find_calls(r"Iterator>::next$") if has_origin(b.origins(c.args[0], transparent=NEXT_TRANSPARENT), None, proj_contains=[".uid_plans"])]
+        if not nxs:
+            raise AnchorMissing("loop over batch.uid_plans")
+        nx = nxs[0]
+        inst.sites = [sp(b, nx.bb), sp(b, cu.bb), sp(b, ins.bb)]
+        some = variant_edge(b, nx, "Some")
+        seen = b.reach(0, src_edges=some, cut_blocks=[ins.bb])
+        bad = []
+        if nx.bb in seen:
+            bad.append(("uid-skipped", "an event type of the batch can be skipped (no result, no error) while the hand-over retires it from the inputs: its rows end up nowhere", witness_path(b, seen, nx.bb)))
+        okret = [bb for (bb, j, v, dst) in b.aggregates("result::Result", "Ok") if dst == [0]]
+        none = variant_edge(b, nx, "None")
+        for o in okret:
+            L = b.origins(b.blocks[o]["s"][-1]["v"]["o"][0]) if False else None
+        return bad
+    ctx.run("C05.g", "K9 LOOP", "MultiUidCompactor::run", "every event type of a batch is compacted or the batch fails", g)
+
+    def h(inst):
+        bad = []
+        for nm in ("ZoneMerger::next_row", "ZoneMerger::next_zone"):
+            b = F.fn(nm)
+            pops = b.find_calls(r"BinaryHeap::pop$")
+            pushes = b.find_calls(r"BinaryHeap::push$")
+            peeks = b.find_calls(r"ZoneCursor::peek_context_id$")
+            if not pops or not pushes or not peeks:
+                raise AnchorMissing("%s: pop/push/peek (%d/%d/%d)" % (nm, len(pops), len(pushes), len(peeks)))
+            inst.sites += [sp(b, x.bb) for x in pops + peeks + pushes]
+            tested = 0
+            for pk in peeks:
+                for i, si in result_switches(b, pk):
+                    for t in edges_for_variant(si, "Some"):
+                        tested += 1
+                        seen = b.reach(0, src_edges=[(i, t)], cut_blocks=[p.bb for p in pushes])
+                        tgt = [x for x in b.exits() if x in seen] + [p.bb for p in pops if p.bb in seen]
+                        if tgt:
+                            bad.append(("cursor-not-requeued:%s" % nm.split("::")[-1], "%s: a cursor that still has rows can be left off the heap: its remaining rows never reach the compacted segment" % nm, witness_path(b, seen, tgt[0])))
+            if not tested:
+                bad.append(("requeue-untested:%s" % nm.split("::")[-1], "%s never branches on `cursor has more rows` (peek_context_id) to re-queue it" % nm, None))
+        return bad
+    ctx.run("C05.h", "K9 LOOP", "ZoneMerger::next_row / next_zone", "the k-way merge never abandons a non-empty cursor", h)
 
     def c(inst):
         b = F.fn("CompactionWorker::run")
